@@ -115,9 +115,9 @@ func genDrivers() []driver {
 	for _, f := range genForms {
 		for _, b := range genBodies {
 			out = append(out, driver{
-				name: "gen/" + f.name + "/" + b.name,
-				src:  "out := 0; " + f.pre + f.open + b.src + f.close + "; out = 7",
-				inputs: map[string]interface{}{"spin": true, "n": 0, "arr": []interface{}{1, 2}},
+				name:     "gen/" + f.name + "/" + b.name,
+				src:      "out := 0; " + f.pre + f.open + b.src + f.close + "; out = 7",
+				inputs:   map[string]interface{}{"spin": true, "n": 0, "arr": []interface{}{1, 2}},
 				infinite: true, wantOut: "int:7", reset: map[string]interface{}{"spin": false},
 			})
 		}
@@ -153,11 +153,15 @@ type world struct {
 	preCancel    bool
 	observed     string
 	observerDone bool
+	errB         string
+	doneB        bool
+	contender    bool
 }
 
 type harness struct {
-	d        driver
-	observer bool // a third API user: Get + IsDefined on the same object while the run is in flight
+	d         driver
+	observer  bool // a third API user: Get + IsDefined on the same object while the run is in flight
+	contender bool // a second caller: RunContext(ctxB) on the same object, ctxB cancelled at an arbitrary instant
 }
 
 func errClass(err error) string {
@@ -248,6 +252,22 @@ func (h harness) Start(s *vsched.Sched) vsched.World {
 		cancel()
 		w.cancelled = true
 	})
+	if h.contender {
+		w.contender = true
+		ctxB, cancelB := context.WithCancel(context.Background())
+		s.Spawn("contender", func() {
+			errB := c.RunContext(ctxB)
+			w.errB = errClass(errB)
+			w.doneB = true
+			if !w.s.LocksFree() {
+				w.problems = append(w.problems, "the contending RunContext returned with the lock still held")
+			}
+		})
+		s.Spawn("canceller-b", func() {
+			vsched.Point("cancel-b")
+			cancelB()
+		})
+	}
 	if h.observer {
 		s.Spawn("observer", func() {
 			v := c.Get("out")
@@ -264,6 +284,9 @@ func (h harness) Start(s *vsched.Sched) vsched.World {
 // atReturn: clean = the VM goroutine of that call has terminated and the lock is... still held by the
 // deferred Unlock until the function really returns; so check the VM threads only.
 func (w *world) atReturn(what string) {
+	if w.contender {
+		return // another caller's VM and lock section may legitimately be in flight
+	}
 	for i, vm := range w.vms {
 		if vm.thread >= 0 && !w.s.ThreadDone(vm.thread) {
 			w.problems = append(w.problems, fmt.Sprintf("%s returned while the goroutine of VM #%d is still alive", what, i+1))
@@ -335,7 +358,7 @@ func (w *world) globalsKey() string {
 
 func (w *world) Key() string {
 	var sb strings.Builder
-	fmt.Fprintf(&sb, "ph=%d e1=%s e2=%s out=%s cancelled=%v problems=%d obs=%s/%v|", w.phase, w.err1, w.err2, w.out, w.cancelled, len(w.problems), w.observed, w.observerDone)
+	fmt.Fprintf(&sb, "ph=%d e1=%s e2=%s out=%s cancelled=%v problems=%d obs=%s/%v b=%s/%v|", w.phase, w.err1, w.err2, w.out, w.cancelled, len(w.problems), w.observed, w.observerDone, w.errB, w.doneB)
 	for _, vm := range w.vms {
 		sb.WriteString(w.vmKey(vm) + "|")
 	}
@@ -374,6 +397,9 @@ func (w *world) CheckTerminal() ([]string, string) {
 	if w.phase != 4 {
 		out = append(out, fmt.Sprintf("all threads finished but the caller is in phase %d", w.phase))
 	}
+	if w.contender && !w.doneB {
+		out = append(out, "all threads finished but the contending RunContext never returned")
+	}
 	if w.d.wantOut != "" {
 		if w.err2 != "nil" {
 			out = append(out, "the object is not reusable after cancellation: second RunContext returned "+w.err2)
@@ -386,7 +412,7 @@ func (w *world) CheckTerminal() ([]string, string) {
 	return out, fmt.Sprintf("first=%s second=%s out=%s", w.err1, w.err2, w.out)
 }
 
-func (w *world) Pending() bool { return w.phase < 4 }
+func (w *world) Pending() bool { return w.phase < 4 || (w.contender && !w.doneB) }
 
 // the observer holds the read lock, so it can only see a state between complete API calls
 func (w *world) observerLegal() bool {
@@ -401,12 +427,13 @@ func (w *world) observerLegal() bool {
 }
 
 type Case struct {
-	Observer bool            `json:"observer,omitempty"`
-	Driver   string          `json:"driver"`
-	Kind     string          `json:"kind"`
-	Msg      string          `json:"msg"`
-	Schedule []vsched.Action `json:"schedule"`
-	Trace    []string        `json:"trace,omitempty"`
+	Contender bool            `json:"contender,omitempty"`
+	Observer  bool            `json:"observer,omitempty"`
+	Driver    string          `json:"driver"`
+	Kind      string          `json:"kind"`
+	Msg       string          `json:"msg"`
+	Schedule  []vsched.Action `json:"schedule"`
+	Trace     []string        `json:"trace,omitempty"`
 }
 
 func sigOf(kind, msg string) string {
@@ -445,7 +472,7 @@ func main() {
 				}
 				for rep := 0; rep < 2; rep++ {
 					s := vsched.NewSched()
-					w := harness{d: d, observer: c.Observer}.Start(s)
+					w := harness{d: d, observer: c.Observer, contender: c.Contender}.Start(s)
 					ok := true
 					for _, a := range c.Schedule {
 						en := false
@@ -518,6 +545,36 @@ func main() {
 				r.Violation("driver="+d.name+"/"+sigOf(v.Kind, v.Msg), v.Msg, Case{Observer: observer, Driver: d.name, Kind: v.Kind, Msg: v.Msg, Schedule: v.Schedule, Trace: tail(v.Trace, 40)})
 			}
 			r.Sample(map[string]interface{}{"driver": d.name, "script": d.src, "threads": "caller(RunContext; Set; RunContext; Get) | vm goroutine(s) | canceller", "outcomes": res.Outcomes})
+		}
+	}
+	// a second caller contending for the same object (its context cancelled at any instant, also while it waits)
+	for _, d := range drivers {
+		if d.name != "terminating" && !(r.Thorough() && d.name == "loop") {
+			continue
+		}
+		res := vsched.Explore(harness{d: d, contender: true}, vsched.Options{MaxStates: r.Pick(300000, 3000000)})
+		tengo.VerifNewVM = nil
+		states += int64(res.States)
+		trans += int64(res.Transitions)
+		execs += int64(res.Executions)
+		terms += int64(res.Terminals)
+		branching += int64(res.Branching)
+		for o := range res.Outcomes {
+			r.Outcome(d.name + "+contender: " + o)
+			outcomes.Add(d.name + "+contender: " + o)
+		}
+		r.Set("driver/"+d.name+"/contender", map[string]interface{}{"script": d.src, "states": res.States, "transitions": res.Transitions,
+			"executions": res.Executions, "terminal_states": res.Terminals, "max_depth": res.MaxDepth, "outcomes": res.Outcomes})
+		if vsched.Hung {
+			r.NotExhaustive("a thread never reached another scheduling point (reported as a violation); exploration stopped")
+		} else if res.Capped {
+			r.NotExhaustive(fmt.Sprintf("driver %s with contender: state cap reached after %d states", d.name, res.States))
+		}
+		for _, m := range res.Internal {
+			r.Internal("driver %s+contender: %s", d.name, m)
+		}
+		for _, v := range res.Violations {
+			r.Violation("driver="+d.name+"+contender/"+sigOf(v.Kind, v.Msg), v.Msg, Case{Contender: true, Driver: d.name, Kind: v.Kind, Msg: v.Msg, Schedule: v.Schedule, Trace: tail(v.Trace, 40)})
 		}
 	}
 	r.Set("executions", execs)
